@@ -852,6 +852,31 @@ func (e *Env) evalCall(n *ECall) (cval, error) {
 		vh := c.R.VisitedHeap(k.t.Sort)
 		return cval{t: Select(Select(c.getHeap(e.st, vh), rec.it), k.t), typ: boolT}, nil
 	}
+	// visitedN(k): key k already yielded by the map range of (enclosing) loop N
+	if strings.HasPrefix(n.Fn, "visited") && len(n.Fn) > len("visited") && e.fr != nil {
+		var ord int
+		if _, err := fmt.Sscanf(n.Fn[len("visited"):], "%d", &ord); err == nil {
+			for _, li := range e.fr.loops {
+				if li.ord != ord {
+					continue
+				}
+				rec := e.fr.loopRange(li)
+				if rec == nil || !rec.isMap {
+					return cval{}, fmt.Errorf("%s(): loop %d is not a map range", n.Fn, ord)
+				}
+				if len(n.Args) != 1 {
+					return cval{}, fmt.Errorf("%s expects 1 argument", n.Fn)
+				}
+				k, err := e.eval(n.Args[0])
+				if err != nil {
+					return cval{}, err
+				}
+				vh := c.R.VisitedHeap(k.t.Sort)
+				return cval{t: Select(Select(c.getHeap(e.st, vh), rec.it), k.t), typ: boolT}, nil
+			}
+			return cval{}, fmt.Errorf("%s(): no loop %d", n.Fn, ord)
+		}
+	}
 	if pd, ok := c.W.Preds[n.Fn]; ok {
 		if len(n.Args) != len(pd.Params) {
 			return cval{}, fmt.Errorf("pred %s expects %d args", pd.Name, len(pd.Params))
